@@ -99,5 +99,10 @@ func (b *Stack[T]) WaitSizeIsAbove(threshold int) {
 }
 
 func (b *Stack[T]) SignalShutdown() {
+	// the mutex has to be held: a PopOrWait caller that has already evaluated its wait condition but has not yet
+	// started to wait would otherwise miss the broadcast and sleep forever (lost wake-up).
+	b.mutex.Lock()
+	defer b.mutex.Unlock()
+
 	b.elementAdded.Broadcast()
 }
